@@ -135,6 +135,12 @@ theorem wrapMCore_refines (w : MSt) (s : St) (hr : RelM w s) (c : MCall) (hl : c
   | contents c =>
     simp only [wrapMCore, MCall.spec, canon_perm (hr.get c)]
     exact ⟨trivial, hr⟩
+  | constructRange c ys =>
+    obtain ⟨h1, h2⟩ := mmAddMany_rel ys [] keysNodup_nil
+    exact ⟨rfl, hr.put c _ _ (by simpa [pairs_nil] using h1) h2⟩
+  | constructList c ys =>
+    obtain ⟨h1, h2⟩ := mmAddMany_rel ys [] keysNodup_nil
+    exact ⟨rfl, hr.put c _ _ (by simpa [pairs_nil] using h1) h2⟩
 
 /-- an oracle may only re-arrange the key entries of a table -/
 def RearrangesM (ρ : Nat → MM → MM) : Prop := ∀ n m, (ρ n m).Perm m
